@@ -30,6 +30,11 @@ def check(ctx):
     ctx.guard(c14.r141_siblings, ctx, rule="R03.5")
     ctx.guard(c14.r142_labels, ctx, rule="R03.5")
     ctx.guard(c14.r145_formulas, ctx, rule="R03.5")
+    # the sample_weight a named metric receives reaches the base rate through MetricFrame's parameter routing: the column written
+    # for it is built from this call's value (no cache across calls) and is the column the wrapper reads (shared with C01)
+    from . import c01
+    ctx.guard(c01.r012_slicing, ctx, "R03.6")
+    ctx.guard(c01.r015_param_routing, ctx, "R03.6")
 
 
 def r031_wiring(ctx, rule, only_weights=False):
